@@ -64,7 +64,13 @@ def run(ck):
                  "the current event before any callback, and set again after every re-binding of "
                  "the current event; each event is handled in its own context copy", 'M0', 4)
 
-    with ck.section('R03.1'):
+    with ck.section('R03.0'):
+        from rules.fsmrun import fsm_run_obligations
+        for rule_, aspects_ in ((R1, ('order',)), (R2, ('reject',)), (R3, ('lookup', 'goto')), (R4, ('cond',)),
+                                (R5, ('chain',)), (R6, ('data',))):
+            fsm_run_obligations(ck, rule_, aspects_)
+
+    with ck.section('R03.1', backed_by='FSM._ctx_event', prefix='fsm:FSM._ctx_event'):
         g = ck.cfg(CTX, 'M0')
         acq = [w for w in nodes_writing_attr(g, '_fsm_event_active')
                if is_const(written_value(w, '_fsm_event_active'), True)]
@@ -142,7 +148,7 @@ def run(ck):
               if ok else "_send_events does not send (self, sdata=, trigger=, state=self._state, "
               "value=self._output) for the events of the current state", se, se.node)
 
-    with ck.section('R03.2'):
+    with ck.section('R03.2', backed_by='FSM._ctx_event', prefix='fsm:FSM._ctx_event'):
         # ------------------------------------------------------------------ R03.2
         rf = [r for r in return_nodes(g) if is_const(r.ast.value, False)]
         others = [r for r in return_nodes(g) if r not in rf and not is_const(r.ast.value, True)]
@@ -185,7 +191,7 @@ def run(ck):
     with ck.section('R03.7'):
         _build_tables_run(ck, R7)
 
-    with ck.section('R03.3'):
+    with ck.section('R03.3', backed_by='FSM._ctx_event', prefix='fsm:FSM._ctx_event'):
         # ------------------------------------------------------------------ R03.3
         gk = ck.cfg(CTX, 'MK')
 
@@ -261,7 +267,7 @@ def run(ck):
               "the Goto target becomes the new state after a validity check" if gt and chk else
               "the Goto target is not used (or not validated) as the new state", ctx, ctx.node)
 
-    with ck.section('R03.4'):
+    with ck.section('R03.4', backed_by='FSM._ctx_event', prefix='fsm:FSM._ctx_event'):
         # ------------------------------------------------------------------ R03.4
         cond_nodes = nodes_where(g, lambda n: any(_cb_kind(c) == 'cond' for c in node_calls(n)))
         ck.need(R4, len(cond_nodes) == 1, "_ctx_event: the cond call site was not recognised")
@@ -333,7 +339,7 @@ def run(ck):
               "_run_cb does not call both the instance callback and the class method for the same "
               "name, or drops a result", rc, rc.node)
 
-    with ck.section('R03.5'):
+    with ck.section('R03.5', backed_by='FSM._ctx_event', prefix='fsm:FSM._ctx_event'):
         # ------------------------------------------------------------------ R03.5
         init = fsm.methods['__init__']
         own(ck, R5, '_next_event', {init.fid: 'None', CTX: 'slot written / taken'})
@@ -369,7 +375,7 @@ def run(ck):
               if ok else "the chained request is not taken over completely or the slot is not cleared",
               ctx, take[0].ast if take else ctx.node)
 
-    with ck.section('R03.6'):
+    with ck.section('R03.6', backed_by='FSM._ctx_event', prefix='fsm:FSM._ctx_event'):
         # ------------------------------------------------------------------ R03.6
         sets = nodes_where(g, lambda n: any(call_name(c) == 'set' and recv(c) == 'fsm_event_data'
                                             for c in node_calls(n)))
